@@ -34,6 +34,11 @@ func crossKinds() []crossKind {
 		{Kind: "SHOW-SERIES-CARDINALITY-ON", Template: "SHOW SERIES CARDINALITY ON {T}"},
 		{Kind: "SHOW-MEASUREMENT-CARDINALITY-ON", Template: "SHOW MEASUREMENT CARDINALITY ON {T}"},
 		{Kind: "SELECT-subquery", Template: "SELECT max(c) FROM (SELECT count(v) AS c FROM {T}.autogen.m1 GROUP BY host)"},
+		// the foreign database as ONE of several sources ({O} = the database the user may read)
+		{Kind: "SELECT-join-right-subquery", Template: "SELECT a.v, b.v FROM (SELECT v FROM {O}.autogen.m1 GROUP BY host) AS a INNER JOIN (SELECT v FROM {T}.autogen.m1 GROUP BY host) AS b ON a.host = b.host GROUP BY host", Core: true},
+		{Kind: "SELECT-join-left-subquery", Template: "SELECT a.v, b.v FROM (SELECT v FROM {T}.autogen.m1 GROUP BY host) AS a INNER JOIN (SELECT v FROM {O}.autogen.m1 GROUP BY host) AS b ON a.host = b.host GROUP BY host", Core: true},
+		{Kind: "SELECT-join-full-right-subquery", Template: "SELECT a.v, b.v FROM {O}.autogen.m1 AS a FULL JOIN (SELECT v FROM {T}.autogen.m1 GROUP BY host) AS b ON a.host = b.host GROUP BY host"},
+		{Kind: "SELECT-two-sources", Template: "SELECT v FROM {O}.autogen.m1, {T}.autogen.m1 LIMIT 2", Core: true},
 		{Kind: "DROP-RETENTION-POLICY", Template: "DROP RETENTION POLICY " + crossRP + " ON {T}", Mutating: true, Core: true},
 		{Kind: "SELECT-INTO", Template: "SELECT v INTO {T}.autogen.m1copy FROM {T}.autogen.m1", Mutating: true, Core: true},
 		{Kind: "DROP-CONTINUOUS-QUERY", Template: "DROP CONTINUOUS QUERY cqx ON {T}", Mutating: true},
@@ -64,7 +69,7 @@ func (e *env) runCrossDatabase() {
 		byMethod := map[string][]oneCase{}
 		var rejected []oneCase
 		for _, u := range crossUsers {
-			text := strings.ReplaceAll(ck.Template, "{T}", u.foreign)
+			text := strings.ReplaceAll(strings.ReplaceAll(ck.Template, "{T}", u.foreign), "{O}", u.own)
 			for _, dbParam := range []string{u.own, ""} {
 				for _, meth := range methods {
 					creds := userCreds(u.class)
